@@ -17,6 +17,8 @@ fn main() {
         "drive-record" => xv::drive::cmd_record(rest),
         "limits-replay" => xv::limits::cmd_replay(rest),
         "limits-record" => xv::limits::cmd_record(rest),
+        "twin-replay" => xv::twin::cmd_replay(rest),
+        "twin-record" => xv::twin::cmd_record(rest),
         other => {
             eprintln!("unknown subcommand {}", other);
             2
